@@ -817,6 +817,32 @@ def tmin(a, b):
     return a if a <= b else b
 
 
+def cvc5_check(assumptions, timeout_ms=120000):
+    """satisfiability of the conjunction according to cvc5 (SMT-LIB2 text generated by z3) -> 'sat'|'unsat'|'unknown'|None"""
+    import cvc5
+    s = z3.Solver()
+    s.add(*assumptions)
+    txt = "(set-logic ALL)\n" + s.to_smt2()
+    try:
+        tm = cvc5.TermManager()
+        slv = cvc5.Solver(tm)
+        slv.setOption("tlimit-per", str(timeout_ms))
+        p = cvc5.InputParser(slv)
+        p.setStringInput(cvc5.InputLanguage.SMT_LIB_2_6, txt, "claim")
+        sm = p.getSymbolManager()
+        res = None
+        while True:
+            cmd = p.nextCommand()
+            if cmd.isNull():
+                break
+            out = str(cmd.invoke(slv, sm)).strip()
+            if out in ('sat', 'unsat', 'unknown'):
+                res = out
+        return res
+    except Exception as e:      # parse error / API error: inconclusive, never a pass
+        return 'error:%s' % (str(e)[:80],)
+
+
 # --------------------------------------------------------------------------- Explorer
 class Violation:
     def __init__(self, oracle, values, choices, info):
@@ -860,6 +886,9 @@ class Explorer:
         # statistics
         self.n_sat = self.n_unsat = self.n_unknown = 0
         self.n_cached = 0
+        self.cross = False        # re-discharge every claim query with cvc5 (two-solver diff)
+        self.n_cross = 0
+        self.n_cross_disagree = 0
         self.qcache = {}
         self.solver_time = 0.0
         self.paths_done = 0
@@ -1200,7 +1229,15 @@ class Explorer:
             self._violation(oracle, None, _EMPTY, info)
             raise PathStop(oracle)
         ne = z3.Not(cond.e)
-        if not self._check(self._slice(cond.vs) + [ne]):
+        q = self._slice(cond.vs) + [ne]
+        res = self._check(q)
+        if self.cross:
+            other = cvc5_check(q)
+            self.n_cross += 1
+            if other is None or other != ('sat' if res else 'unsat'):
+                self.n_cross_disagree += 1
+                raise Inconclusive("z3 says %s, cvc5 says %s on claim %s" % ('sat' if res else 'unsat', other, oracle))
+        if not res:
             st.discharged_unsat += 1
             return True
         st.violated += 1
